@@ -19,7 +19,7 @@ import (
 // envTime converts the model clock to a time.Time.
 func envTime(env model.Env) gotime.Time {
 	y, m, d := model.CivilFromDays(env.NowDay)
-	return gotime.Date(y, gotime.Month(m), d, env.NowSec/3600, env.NowSec%3600/60, env.NowSec%60, 0, gotime.Local)
+	return gotime.Date(y, gotime.Month(m), d, env.NowSec/3600, env.NowSec%3600/60, env.NowSec%60, 0, gotime.UTC)
 }
 
 // envConfig renders the config.ini for an environment.
